@@ -1,10 +1,10 @@
 /-
   C41 — OpenSSH certificates (ssh/certs.go): parseCert, parseTuples, parseSignatureBody,
   Certificate.Marshal, bytesForSigning, CertChecker.CheckCert / Authenticate / CheckHostKey,
-  SignCert's algorithm choice.  The code is modelled as written: in particular `CheckCert` verifies the
-  CA signature over `bytesForSigning` = a RE-MARSHAL of the parsed certificate, not over the bytes
-  that were received (see `checkCertRecv`, the check the property statement asks for, and
-  XC/Props/C41.lean for the theorems relating the two).
+  SignCert's algorithm choice.  The code is modelled as written: `CheckCert` verifies the CA signature over
+  `bytesForSigning` = a RE-MARSHAL of the parsed certificate; since fix 03f8929 `parseCert` only accepts
+  encodings that re-marshal to themselves, so that is the same as verifying over the received bytes
+  (`checkCertRecv`; XC/Props/C41.lean proves the two equal on everything the parser accepts).
 
   Not modelled (oracles): `PublicKey.Verify` of the CA key (`Verify`), elliptic-curve point
   validation (`PtOracle`), `net.SplitHostPort`, the application callbacks.
@@ -140,8 +140,8 @@ def certTypeOf (k : PubKey) : Option Bytes :=
 
 /-! ## parseCert / Marshal -/
 
-/-- `parseCert(in, privAlgo)` -/
-def parseCert (o : PtOracle) (privAlgo : Bytes) (b : Bytes) : Option Cert :=
+/-- `parseCert(in, privAlgo)` up to (not including) the final canonical-encoding check -/
+def parseCertNoCheck (o : PtOracle) (privAlgo : Bytes) (b : Bytes) : Option Cert :=
   match parseString b with
   | none => none
   | some (nonce, r0) =>
@@ -223,6 +223,33 @@ def Cert.bytesForSigning (c : Cert) : Option Bytes :=
   match ({ c with sig := none } : Cert).marshal with
   | none => none
   | some out => some (out.take (out.length - 4))
+
+/-- `parseCert(in, privAlgo)`: the fields, then the canonical-encoding check added by 03f8929
+    ("ssh: reject certificates that are not canonically encoded"):
+    `_, body, ok := parseString(c.Marshal()); !ok || !bytes.Equal(body, in)` ⇒ error.
+    `c.Marshal()` panics for a key without certificate type; `parsePlain` never returns such a key
+    (theorem `parseCertNoCheck_marshal_some`), so the `none` arm below is unreachable. -/
+def parseCert (o : PtOracle) (privAlgo : Bytes) (b : Bytes) : Option Cert :=
+  match parseCertNoCheck o privAlgo b with
+  | none => none
+  | some c =>
+    match c.marshal with
+    | none => none
+    | some m =>
+      match parseString m with
+      | none => none
+      | some (_, body) => if body = b then some c else none
+
+/-- the pre-03f8929 parser (no canonical-encoding check): only used to state what the check excludes -/
+def parseCertKeyNoCheck (o : PtOracle) (b : Bytes) : Option Cert :=
+  match parseString b with
+  | none => none
+  | some (algo, r) =>
+    if certArms.contains algo then
+      match certKeyAlgoNames.find? (fun p => p.1 = algo) with
+      | none => none
+      | some p => parseCertNoCheck o p.2 r
+    else none
 
 /-- `ParsePublicKey` for certificate blobs: type name ∈ the eight certificate arms -/
 def parseCertKey (o : PtOracle) (b : Bytes) : Option Cert :=
